@@ -677,3 +677,62 @@ _run_c19 = run
 def run(ctx, R):
     _run_c19(ctx, R)
     r197(ctx, R)
+
+
+def r198(ctx, R):
+    """The start-up sync inserts what is missing: in _trait_sync and
+    _resource_classes_sync the INSERT is reached on every path on which the
+    batch of missing names is non-empty - the only condition on the way to
+    it is the batch itself (no shortcut decided by a row count or anything
+    else that custom names can satisfy)."""
+    prog = ctx.prog
+    n = 0
+    for q in (TM + ':_trait_sync', RCM + ':_resource_classes_sync'):
+        f = prog.func(q)
+        ins = [e for e in ctx.effects.direct.get(f, ()) if e.op == 'I']
+        rets = [r for r in own_nodes(f.node) if isinstance(r, ast.Return)]
+        ok = len(ins) == 1
+        why = 'inserts=%d' % len(ins)
+        if ok:
+            n += 1
+            st = ins[0].stmt
+            conds = C.conds(st, f.node, implicit=True)
+            # the batch handed to execute(): its name
+            batch = None
+            for c in ast.walk(st):
+                if isinstance(c, ast.Call) and isinstance(
+                        c.func, ast.Attribute) and c.func.attr == 'execute' \
+                        and len(c.args) == 2 and isinstance(
+                            c.args[1], ast.Name):
+                    batch = c.args[1].id
+            deps = C.Deps(f)
+
+            def is_batch(e):
+                # the batch itself, or the collection it is built from
+                if not isinstance(e, ast.Name) or batch is None:
+                    return False
+                if e.id == batch:
+                    return True
+                return deps.reaches(
+                    ast.Name(id=batch, ctx=ast.Load()),
+                    lambda x: isinstance(x, ast.Name) and x.id == e.id) \
+                    and not deps.reaches(e, lambda x: isinstance(
+                        x, ast.Call) and isinstance(
+                            x.func, ast.Attribute) and x.func.attr in (
+                                'count', 'scalar'))
+            bad = [('' if pol else 'not ') + src(e) for e, pol in conds
+                   if not is_batch(e)]
+            ok = batch is not None and not bad
+            why = bad or 'guarded by the batch (%s) only' % batch
+        R.ob('R19.6', '%s:inserts-whatever-is-missing' % q.split(':')[1], ok,
+             'the only condition between the computation of the missing '
+             'names and their INSERT is that there are some', why, func=f)
+    R.count('R19.6', n, 2)
+
+
+_run_c19b = run
+
+
+def run(ctx, R):
+    _run_c19b(ctx, R)
+    r198(ctx, R)
